@@ -122,7 +122,7 @@ def check_signal(ctx, P):
             bad = bad or "the CAS does not install the calling fiber"
         if w.find_path("entry", "exit", barrier=nodeset(clr)) is not None:
             bad = bad or "a path returns without resetting the signal to NO_WAITER"
-        for y in w.calls("fiber_manager_yield"):
+        for y in w.calls(("fiber_manager_yield", "fiber_manager_set_and_wait")):
             if w.guarded(y, lambda leaf, pol: through_local(w, leaf) is c.node and pol is True) is not None:
                 bad = bad or "the fiber sleeps without having won the CAS"
             if w.find_path(y, "exit", barrier=nodeset(clr)) is not None:
